@@ -31,6 +31,15 @@ type genv struct {
 	rec           *recorder
 	act, rcv, dea *gate
 	ninst         atomic.Int64
+	inRcv         atomic.Int32
+	label         string // name the events are recorded under (default: the identity name)
+}
+
+func (e *genv) who(name string) string {
+	if e.label != "" {
+		return e.label
+	}
+	return name
 }
 
 var (
@@ -87,9 +96,9 @@ func (g *Tgrain) OnActivate(_ context.Context, props *actor.GrainProps) error {
 		g.inst = g.env.ninst.Add(1)
 	}
 	x := strconv.FormatInt(g.inst, 10)
-	g.env.rec.add("actB", g.name, "", x)
+	g.env.rec.add("actB", g.env.who(g.name), "", x)
 	g.env.act.pass("act")
-	g.env.rec.add("actE", g.name, "", x)
+	g.env.rec.add("actE", g.env.who(g.name), "", x)
 	return nil
 }
 
@@ -103,9 +112,11 @@ func (g *Tgrain) OnReceive(gc *actor.GrainContext) {
 		return
 	}
 	x := strconv.FormatInt(g.inst, 10)
-	g.env.rec.add("rcvB", g.name, "", x)
+	g.env.rec.add("rcvB", g.env.who(g.name), "", x)
+	g.env.inRcv.Add(1)
 	g.env.rcv.pass("turn")
-	g.env.rec.add("rcvE", g.name, "", x)
+	g.env.inRcv.Add(-1)
+	g.env.rec.add("rcvE", g.env.who(g.name), "", x)
 	gc.NoErr()
 }
 
@@ -115,9 +126,9 @@ func (g *Tgrain) OnDeactivate(context.Context, *actor.GrainProps) error {
 	}
 	via := deaVia()
 	x := strconv.FormatInt(g.inst, 10)
-	g.env.rec.add("deaB", g.name, via, x)
+	g.env.rec.add("deaB", g.env.who(g.name), via, x)
 	g.env.dea.pass(via)
-	g.env.rec.add("deaE", g.name, "", x)
+	g.env.rec.add("deaE", g.env.who(g.name), "", x)
 	return nil
 }
 
